@@ -440,10 +440,54 @@ def check(prog, rep, tier):
                 rep.bad("C05.constructs-cls", f"{cname}.{mn}", f"constructs {sorted(kinds)}",
                         f"{cname}.{mn} (defined in {f.cls.name}) returns a {sorted(kinds)}: loading through the subclass yields a different structure "
                         "(e.g. a different query mode)", f.where())
+    # ---------------------------------------------------------------- what the format does not store is honoured when re-supplied
+    rep.rule("C05.resupplied", "parameters the format does not store (hash function, queue limit, table sizes, error rate) are honoured when re-supplied", floor=12)
+    HASHF = {"BloomFilter": "_hash_func", "CountingBloomFilter": "_hash_func", "BloomFilterOnDisk": "_hash_func", "ExpandingBloomFilter": "_ExpandingBloomFilter__hash_func",
+             "RotatingBloomFilter": "_ExpandingBloomFilter__hash_func", "CountMinSketch": "_hash_function", "CountMeanSketch": "_hash_function",
+             "CountMeanMinSketch": "_hash_function", "HeavyHitters": "_hash_function", "StreamThreshold": "_hash_function",
+             "CuckooFilter": "_CuckooFilter__hash_func", "CountingCuckooFilter": "_CuckooFilter__hash_func"}
+    OTHER = {("RotatingBloomFilter", "max_queue_size"): "_queue_size", ("HeavyHitters", "num_hitters"): "_HeavyHitters__num_hitters",
+             ("StreamThreshold", "threshold"): "_StreamThreshold__threshold"}
+    for cname, hfld in HASHF.items():
+        K = prog.cls(cname)
+        for mn in ("frombytes", "__init__"):
+            f = K.find_method(mn)
+            if f is None or "hash_function" not in f.params:
+                continue
+            ps = [p for p in paths(prog, cname, f, inline="deep") if p.exit[0] == "return"]
+            if not ps:
+                continue
+            bad = None
+            for p in ps:
+                obj = loaded_obj(f, p)
+                hp = ("p", "hash_function")
+                given = None
+                for c in p.conds:
+                    a = strip_epochs(c.atom)
+                    if a in (("cmp", "isnot", hp, C(None)), ("cmp", "is", hp, C(None))):
+                        given = (a[1] == "isnot") == c.truth
+                v = p.fields.get((obj, hfld))
+                if v is None:
+                    continue
+                if given is True and strip_epochs(v) != hp:
+                    bad = (f"{hfld} = {nshow(v)}", f"a re-supplied hash_function is not honoured: the loaded structure hashes with {nshow(v)}")
+                if given is None and strip_epochs(v) != hp and not any(n == hp for n in walk(v)):
+                    bad = (f"{hfld} = {nshow(v)}", f"the hash_function argument does not reach the structure (it hashes with {nshow(v)})")
+                for (cn2, par), fld in OTHER.items():
+                    if cn2 == cname and par in f.params:
+                        ov = p.fields.get((obj, fld))
+                        if ov is None or strip_epochs(ov) != ("p", par):
+                            bad = (f"{fld} = {nshow(ov) if ov else 'unset'}", f"the re-supplied {par} is not honoured")
+            if bad:
+                rep.bad("C05.resupplied", f"{cname}.{mn}", bad[0], f"{cname}.{mn}: {bad[1]}: the reloaded structure answers queries differently", f.where())
+            else:
+                rep.ok("C05.resupplied", f"{cname}.{mn}: hash_function honoured")
+    from .C07 import fingerprint_final_geometry
+    fingerprint_final_geometry(prog, rep, "C05.resupplied-error-rate")
     rep.extra["formats"] = samples
 
 
-from ..selftest import Mutant, del_stmt, insert_stmt, replace_expr, replace_stmt
+from ..selftest import Mutant, del_stmt, insert_stmt, replace_expr, replace_stmt, seq
 
 _B, _CB, _E, _CM, _CK, _CC = ("blooms/bloom.py", "blooms/countingbloom.py", "blooms/expandingbloom.py", "countminsketch/countminsketch.py",
                               "cuckoo/cuckoo.py", "cuckoo/countingcuckoo.py")
@@ -470,5 +514,8 @@ MUTANTS = [
     Mutant("expanding __load forgets the total", _E, del_stmt("ExpandingBloomFilter", "__load", "self._added_elements = els_added"), rule="C05.slot"),
     Mutant("expanding frombytes forgets the total", _E, del_stmt("ExpandingBloomFilter", "frombytes", "blm._added_elements = added_els"), rule="C05.slot"),
     Mutant("CountMinSketch.__bytes__ with its own body", _CM, replace_stmt("CountMinSketch", "__bytes__", "with BytesIO() as f", "return self._bins.tobytes()"), rule="C05.one-body"),
+    Mutant("frombytes drops the re-supplied hash", _B, replace_expr("BloomFilter", "frombytes", "blm._load(b, hash_function=blm.hash_function)", "blm._load(b)"), rule="C05.resupplied"),
+    Mutant("StreamThreshold.frombytes ignores the threshold", _CM, replace_expr("StreamThreshold", "frombytes", "StreamThreshold(width=width, depth=depth, threshold=threshold, hash_function=hash_function)", "StreamThreshold(width=width, depth=depth, hash_function=hash_function)"), rule="C05.resupplied"),
+    Mutant("cuckoo frombytes applies the error rate before loading", _CK, seq(del_stmt("CuckooFilter", "frombytes", "cku._set_error_rate(error_rate)"), insert_stmt("CuckooFilter", "frombytes", "cku._set_error_rate(error_rate)", before="cku._load(b)")), rule="C05.resupplied"),
     Mutant("counting cuckoo export packs max_swaps first", _CC, replace_expr("CountingCuckooFilter", "export", "self.__COUNTING_CUCKOO_FOOTER_STRUCT.pack(self.bucket_size, self.max_swaps)", "self.__COUNTING_CUCKOO_FOOTER_STRUCT.pack(self.max_swaps, self.bucket_size)"), rule="C05.slot"),
 ]
